@@ -240,7 +240,8 @@ def _parse_composition(
         schema
     )
     base_element = parse_element(other, state)
-    for key in set(COMPOSITION_KEYWORDS) - {"not"}:
+    # Fixed order: class names of repeated titles depend on the parse order.
+    for key in (key for key in COMPOSITION_KEYWORDS if key != "not"):
         composition[key] = [
             parse_element(sub_schema, state)
             for sub_schema in composition.get(key, [])
